@@ -395,6 +395,12 @@ func possiblyTrueBehind(in ssa.Instruction, v ssa.Value, guard EdgePred, depth i
 	if b, isC := isConstBool(v); isC && !b {
 		return true, nil
 	}
+	// the use itself lies behind the guard: whatever the value is and wherever it was computed
+	if depth == 0 {
+		if ok, _ := mustPass(in, guard); ok {
+			return true, nil
+		}
+	}
 	if phi, ok := v.(*ssa.Phi); ok && depth < 5 {
 		B := phi.Block()
 		for i, e := range phi.Edges {
